@@ -10,6 +10,15 @@ def main():
         h = p.harness
         hs[h["name"]] = h
     def b(h):
+        if "variants" in h:
+            oks, logs = [], ""
+            for key, vflags in h["variants"]:
+                ok, exe, log = core.build_harness(h["name"], h["source"], h.get("repo_srcs", ()),
+                                                  list(h.get("flags", ())) + list(vflags), h.get("extra_sources", ()),
+                                                  h.get("san", True), "-" + str(key), h.get("shared_libs", ()))
+                oks.append(ok)
+                logs += log if not ok else ""
+            return h["name"], all(oks), logs
         ok, exe, log = core.build_harness(h["name"], h["source"], h.get("repo_srcs", ()), h.get("flags", ()),
                                           h.get("extra_sources", ()), h.get("san", True), "", h.get("shared_libs", ()))
         return h["name"], ok, log
